@@ -15,5 +15,7 @@ pub fn write_lit(w: &mut dyn std::io::Write, s: &str) -> Option<std::io::Result<
     write_literal!(w, s;
         "\x1b[", "1m", "31mred", "\x1b", "[0m", "\x1b]0;t", "itle\x07", "plain", "\x1b[38;5;", "9mX", "a\x1b[1", ";4mb",
         "\x1bP", "q\x1b\\", "é", "€\x1b[", "0;1m€", "\x1b[1mbold\x1b[0m", "\x1b[38;2;1;", "2;3mrgb", "x\x1b[4", "4my\n",
-        "\x1b[0", "m", "tail\x1b[3")
+        "\x1b[0", "m", "tail\x1b[3",
+        // plain-looking literals with bytes at the edges of "printable ASCII" (a shortcut for literals must strip them too)
+        "a\x7fb", "\x7f", "a\x08b\x00c", "\x07bel", " ~\x7f~ ", "tab\there\r\n", "\x1f", "\u{9c}x", "\x0cff\x0b")
 }
